@@ -22,8 +22,11 @@ RULES = {
     "R4": "completed operations only: journal.record is dominated by the normal return of the original call",
     "R5": "no strong references: Journal.record hands the object to JournalEntry only as weakref/id/class; "
     "every details value is a string-building expression or None",
+    "R6": "entries stay weak (shared rule S8): no memoised callable (lru_cache/cache/cached_property) of the journaling "
+    "package dereferences a weak reference or reads changeable state - a cached referent is a strong reference held by the "
+    "entry, and it answers `alive` after the object should have been collected",
 }
-FLOORS = {"R1": 43, "R2": 4, "R3": 40, "R4": 4, "R5": 40}
+FLOORS = {"R1": 43, "R2": 4, "R3": 40, "R4": 4, "R5": 40, "R6": 2}
 EXPLANATION = (
     "Compares the patch table, the capture table and the restore table of the journaling wrappers as sets of "
     "resolved targets; checks the shape of every wrapper (CFG: exactly one call of the original on every path, "
@@ -479,3 +482,7 @@ def run(ctx):
     rule_r2(ctx)
     rule_r3_r4(ctx)
     rule_r3_sigs_r5(ctx)
+    from ..shared import rule_s8
+
+    rule_s8(ctx, "R6", ("onnx_ir.journaling",),
+            "the journal entry keeps the IR object alive (and keeps answering with it), so journaling changes object lifetimes")
